@@ -68,6 +68,18 @@ def make_input(be, N, inp):
     kind = inp['kind']
     if kind == 'list':
         L, K = ref.parse_list(inp['ops'])
+        lay = inp.get('layout')
+        if lay and be == 'np':
+            # the same list as the caller may hold it: a strided view of a longer list, a reversed view, or column-major storage
+            pm = Bk.mods()['p']
+            if lay == 'step2':
+                big_l = np.repeat(L, 2, axis=0); big_k = np.repeat(K, 2); big_l[1::2] = (big_l[1::2] + 1) % 4
+                return Bk.plist(big_l, big_k)[::2], L, K
+            if lay == 'reversed':
+                return Bk.plist(L[::-1], K[::-1])[::-1], L, K
+            if lay == 'fortran':
+                base = Bk.plist(L, K)
+                return pm.PauliList(np.asfortranarray(base.gs), base.ps), L, K
         return Bk.plist(L, K), L, K
     if kind == 'poly':
         L, K = ref.parse_list(inp['ops'])
@@ -152,7 +164,8 @@ def f_circuit(case):
 
 def st_input(N):
     return st.one_of(
-        st.fixed_dictionaries({'kind': st.just('list'), 'ops': st.lists(gen.st_pauli(N), min_size=1, max_size=5)}),
+        st.fixed_dictionaries({'kind': st.just('list'), 'ops': st.lists(gen.st_pauli(N), min_size=1, max_size=5),
+                               'layout': st.sampled_from([None, None, None, 'step2', 'reversed', 'fortran'])}),
         st.integers(1, 4).flatmap(lambda L: st.fixed_dictionaries({'kind': st.just('poly'), 'ops': st.lists(gen.st_pauli(N), min_size=L, max_size=L),
                                                                   'cs': st.lists(gen.st_coef(), min_size=L, max_size=L)})),
         st.fixed_dictionaries({'kind': st.just('state'), 'state': gen.st_state(N)}))
